@@ -167,6 +167,7 @@ Plan gen_lz4(u64 seed) {
             if (c < 2) {      // the announced size lowered / raised by a few bytes (a literal run or a match that no longer fits)
                 auto it2 = fi->tables.find(mktag(f.tag.c_str())); u32 approx = it2 == fi->tables.end() ? 1000 : u32(it2->second.size());
                 (void)approx; f.kind = "SIZEROT"; f.a = {i64(r.below(2) ? -(1 + i64(r.below(12))) : 1 + i64(r.below(12)))};
+                if (r.chance(1, 3)) { static const int tiny[] = {0, 1, 2, 3, 4, 5, 7, 8}; f.kind = "SETBYTES"; f.a = {4, 0x08, 5, 0, 6, 0, 7, tiny[r.below(8)]}; }   // an announced size smaller than the version word the loader writes back
             }
             else if (c < 3) { f.kind = "BITROT"; f.a = {i64(r.below(8)), i64(1u << r.below(8))}; }                  // header (version / scheme / size)
             else if (c < 7) { f.kind = "BITROT"; unsigned m = 1 + r.below(2); for (unsigned q = 0; q < m; ++q) { f.a.push_back(i64(8 + (r.chance(1, 2) ? r.below(64) : r.below(u32(sz))))); f.a.push_back(r.chance(1, 2) ? i64(1u << r.below(8)) : i64(1 + r.below(255))); } }
